@@ -25,6 +25,9 @@ sys.path.insert(0, HERE)
 from props import PROPS  # noqa: E402
 
 REPO = os.environ.get("VERIF_REPO", "/repo")
+# where evidence/ and replays/ are written (seed validation runs redirect it so that the
+# committed evidence always comes from runs against /repo itself)
+OUT = os.environ.get("VERIF_OUT", VERIF)
 PYROOT = os.environ.get("VERIF_PYROOT", "/root/.pyenv/versions")
 VERSIONS = {
     "3.7": "3.7.16",
@@ -171,7 +174,7 @@ def main():
     if not os.path.isdir(os.path.join(REPO, "code_data")):
         harness_fail("%s/code_data not found" % REPO)
 
-    workroot = os.path.join(VERIF, ".work")
+    workroot = os.path.join(OUT, ".work")
     os.makedirs(workroot, exist_ok=True)
     workdir = tempfile.mkdtemp(prefix="%s_" % prop, dir=workroot)
     try:
@@ -321,7 +324,7 @@ def merge_and_report(prop, meta, tier, seed, versions, missing, nshards, results
                 unreached.append("<%s> on %s" % (name, v))
 
     known = load_known()
-    os.makedirs(os.path.join(VERIF, "replays", prop), exist_ok=True)
+    os.makedirs(os.path.join(OUT, "replays", prop), exist_ok=True)
     new_kinds = collections.OrderedDict()
     known_hits = collections.OrderedDict()
     for rec in violations:
@@ -343,7 +346,7 @@ def merge_and_report(prop, meta, tier, seed, versions, missing, nshards, results
         rec["property"] = prop
         rec["tier"] = tier
         h = hashlib.sha1(json.dumps(rec["case"], sort_keys=True).encode() + kind.encode() + py.encode()).hexdigest()[:12]
-        path = os.path.join(VERIF, "replays", prop, "%s.json" % h)
+        path = os.path.join(OUT, "replays", prop, "%s.json" % h)
         with open(path, "w") as f:
             json.dump(rec, f, indent=1)
         if printed < 25:
@@ -395,8 +398,8 @@ def merge_and_report(prop, meta, tier, seed, versions, missing, nshards, results
         "violations": int(n_new),
     }
     validate_evidence(ev)
-    os.makedirs(os.path.join(VERIF, "evidence"), exist_ok=True)
-    with open(os.path.join(VERIF, "evidence", "%s.json" % prop), "w") as f:
+    os.makedirs(os.path.join(OUT, "evidence"), exist_ok=True)
+    with open(os.path.join(OUT, "evidence", "%s.json" % prop), "w") as f:
         json.dump(ev, f, indent=1, sort_keys=True)
     print(
         "%s tier=%s seed=%d: cases=%d evaluations=%d distinct_nontrivial=%d violations=%d known=%d wall=%.1fs exhaustive=%s"
